@@ -190,6 +190,9 @@ impl Prop for C01 {
             "a write that returns Err satisfies the statement; the run is inconclusive if fewer than 90% of in-limit cases were written successfully".into(),
         ]
     }
+    fn miri_gen(&self) -> Option<&'static str> {
+        Some("random")
+    }
     fn plan(&self, tier: Tier) -> Vec<GenSpec> {
         vec![
             GenSpec::enumerated("sweep", sweep_count()),
